@@ -225,6 +225,25 @@ Theorem c09_outputs_valid_virtual_ignored : forall o1 s1 v o2 x y s2,
 Proof. exact outputs_valid_virtual_ignored. Qed.
 Print Assumptions c09_outputs_valid_virtual_ignored.
 
+(* output infos are compared in full for every non-virtual, non-mutated output, whatever its type: a match forces
+   device, inode, size, both time stamp fields and the checksum to be equal; and the verdict does not depend on the
+   mode (which carries the file type) of either info: there is no special case for directories *)
+Theorem c09_output_matches_full : forall o s, on_mutated o = false -> output_matches o s = true ->
+  fi_device s = fi_device (on_current o) /\ fi_inode s = fi_inode (on_current o) /\ fi_size s = fi_size (on_current o) /\
+  fi_sec s = fi_sec (on_current o) /\ fi_nsec s = fi_nsec (on_current o) /\ fi_checksum s = fi_checksum (on_current o) /\
+  is_missing s = is_missing (on_current o).
+Proof. exact output_matches_full. Qed.
+Print Assumptions c09_output_matches_full.
+
+Theorem c09_output_matches_type_agnostic : forall v mu c s m1 m2,
+  m1 <> 0 -> m2 <> 0 -> fi_mode c <> 0 -> fi_mode s <> 0 ->
+  output_matches (mkOnode v mu (mkFI (fi_device c) (fi_inode c) m1 (fi_size c) (fi_sec c) (fi_nsec c) (fi_checksum c)))
+                 (mkFI (fi_device s) (fi_inode s) m2 (fi_size s) (fi_sec s) (fi_nsec s) (fi_checksum s)) =
+  output_matches (mkOnode v mu (mkFI (fi_device c) (fi_inode c) (fi_mode c) (fi_size c) (fi_sec c) (fi_nsec c) (fi_checksum c)))
+                 (mkFI (fi_device s) (fi_inode s) (fi_mode s) (fi_size s) (fi_sec s) (fi_nsec s) (fi_checksum s)).
+Proof. exact output_matches_type_agnostic. Qed.
+Print Assumptions c09_output_matches_type_agnostic.
+
 (* a rule built before by a task that was not cancelled, whose recorded dependencies report no change: the command
    executes iff the signature changed, or it is always-out-of-date, or the stored value is not a successful command
    result, or some non-virtual output no longer matches its stored info; and the check never reads past the stored
@@ -335,3 +354,12 @@ Example c09_mixed_layout_instance :
   outputs_valid [v; v] [ex_info 1; ex_info 2] = Valid /\
   outputs_valid [v; a; b] [ex_info 10; ex_info 20; ex_info 99] = Invalid.
 Proof. exact mixed_layout_instance. Qed.
+
+(* a directory output: unchanged -> valid; time stamp or size moved (an entry was added or removed) with the same
+   device and inode -> invalid; replaced by a file -> invalid *)
+Example c09_directory_output_instance :
+  outputs_valid [mkOnode false false (ex_dirinfo 100 4096)] [ex_dirinfo 100 4096] = Valid /\
+  outputs_valid [mkOnode false false (ex_dirinfo 101 4096)] [ex_dirinfo 100 4096] = Invalid /\
+  outputs_valid [mkOnode false false (ex_dirinfo 100 4097)] [ex_dirinfo 100 4096] = Invalid /\
+  outputs_valid [mkOnode false false (ex_info 10)] [ex_dirinfo 100 4096] = Invalid.
+Proof. exact directory_output_instance. Qed.
